@@ -69,11 +69,14 @@ UpTo(S, k) == IF k >= Cardinality(S) THEN SUBSET S ELSE UNION {kSubset(j, S) : j
 \* visibility universe
 KindUses == {<<"const", "lax">>, <<"const", "typed">>, <<"def", "call">>, <<"model", "ctor">>, <<"model", "type">>,
              <<"class", "ctor">>, <<"class", "type">>, <<"newtype", "ctor">>, <<"newtype", "type">>,
-             <<"enum", "variant">>, <<"trait", "with">>}
+             <<"enum", "variant">>, <<"trait", "with">>,
+             \* "variant": the importer names a VARIANT of the module's enum (`from m import Red`); `pub` is the enum's marker -
+             \* a variant is exported exactly when its enum is
+             <<"variant", "lax">>}
 Refs == {"from", "from_alias", "item", "item_alias", "none", "qualified"}
 DeclName(kind) == CASE kind = "const" -> "LIMIT" [] kind = "def" -> "helper" [] kind = "model" -> "Thing"
                     [] kind = "class" -> "Box" [] kind = "newtype" -> "UserId" [] kind = "enum" -> "Color"
-                    [] kind = "trait" -> "Named"
+                    [] kind = "trait" -> "Named" [] kind = "variant" -> "Red"
 \* route: how the importer reaches the module - "same" directory, through its parent (`..m` / `super::m`, the entry
 \* lives in a sub-directory), or from the crate root (`crate.m`, the entry lives under src/sub/ and the module in src/)
 Routes == {"same", "up", "crate"}
